@@ -104,6 +104,9 @@ func Loop(r lineReader, p Parser, vm *vm.Type, doOut bool) {
 // literals and comments do not count.
 func complete(input string) bool {
 	blocksOpen, bracketsOpen := 0, 0
+	// line counts the line breaks seen; openedOn is the line on which the
+	// outermost block or literal that is still open began
+	line, openedOn := 0, 0
 
 	l := lexer.NewLexer(input)
 	for l.Next() {
@@ -112,12 +115,22 @@ func complete(input string) bool {
 				return false
 			}
 			// any other lexer error is for the parser to report, on the whole block or literal the
-			// offending line belongs to: text that cannot be tokenised is judged on its characters
-			return strings.Count(input, "{") <= strings.Count(input, "}") &&
-				strings.Count(input, "[") <= strings.Count(input, "]")
+			// offending line belongs to: what follows the last token cannot be tokenised and is
+			// judged on its characters
+			blocks, brackets := countOpen(input[l.Token.To():])
+			blocksOpen += blocks
+			bracketsOpen += brackets
+			break
+		}
+		if l.Token.Type == token.EOL {
+			line++
+			continue
 		}
 		if l.Token.Type != token.NotSticky {
 			continue
+		}
+		if blocksOpen <= 0 && bracketsOpen <= 0 {
+			openedOn = line
 		}
 		switch l.Token.Value {
 		case "{":
@@ -130,13 +143,46 @@ func complete(input string) bool {
 			bracketsOpen--
 		}
 		if blocksOpen < 0 || bracketsOpen < 0 {
-			// no further input can make up for a closer without an opener, whatever else is still open
+			if (blocksOpen > 0 || bracketsOpen > 0) && openedOn != line {
+				// a closer without an opener inside a construct that began on an earlier line: the
+				// construct is still being entered, and its own closer hands the whole of it to the parser
+				blocksOpen, bracketsOpen = max(blocksOpen, 0), max(bracketsOpen, 0)
+				continue
+			}
+			// no further input can make up for a closer without an opener
 			return true
 		}
 	}
 
-	// a closer without an opener can never be completed by further input: let the parser report it
 	return blocksOpen <= 0 && bracketsOpen <= 0
+}
+
+// countOpen counts the braces and brackets of text that cannot be tokenised,
+// skipping string literals and comments as well as it can be done by hand.
+func countOpen(text string) (blocks, brackets int) {
+	inString, inComment, escaped := false, false, false
+	for _, c := range text {
+		switch {
+		case inComment:
+			inComment = c != '\n'
+		case inString:
+			inString = c != '"' || escaped
+			escaped = c == '\\' && !escaped
+		case c == '"':
+			inString = true
+		case c == ';':
+			inComment = true
+		case c == '{':
+			blocks++
+		case c == '}':
+			blocks--
+		case c == '[':
+			brackets++
+		case c == ']':
+			brackets--
+		}
+	}
+	return blocks, brackets
 }
 
 func processInput(input string, p Parser, vm *vm.Type, doOut bool) {
